@@ -58,6 +58,10 @@ SumLen(ds, n) == IF n = 0 THEN 0 ELSE DeclLen(ds[n]) + SumLen(ds, n - 1)
 DeclLine(f, i) == HeaderLen(f) + SumLen(f.decls, i - 1)                              \* zero-based line of `type x` / `extend type x`
 RelLine(f, i, j) == DeclLine(f, i) + 1 + j                                            \* ... of the j-th `define`
 CondLine(f, j) == HeaderLen(f) + SumLen(f.decls, Len(f.decls)) + 3 * (j - 1)          \* ... of the j-th `condition`
+\* every declaration of a file with its line: <<"type"|"ext", name, "", line>>, <<"rel", type, relation, line>> (relations of extensions), <<"cond", name, "", line>>
+LineTable(f) == { <<f.decls[i].kind, f.decls[i].name, "", DeclLine(f, i)>> : i \in 1..Len(f.decls) }
+           \cup UNION { { <<"rel", f.decls[i].name, f.decls[i].rels[j], RelLine(f, i, j)>> : j \in 1..Len(f.decls[i].rels) } : i \in { k \in 1..Len(f.decls) : f.decls[k].kind = "ext" } }
+           \cup { <<"cond", f.conds[j], "", CondLine(f, j)>> : j \in 1..Len(f.conds) }
 
 (***************************************************************************)
 (* What parsing one file yields (listener of dsltojson.go)                 *)
@@ -210,7 +214,7 @@ Load == /\ pc = "load" /\ inp' = SetAt(gi) /\ pc' = "announce"
         /\ UNCHANGED <<gi, fi, remC, remF, curF, ti, remR, types, raw, ext, conds, errs>>
 Announce == /\ pc = "announce" /\ pc' = "file"
             /\ UNCHANGED <<gi, inp, fi, remC, remF, curF, ti, remR, types, raw, ext, conds, errs>>
-            /\ PrintT(ToJson([rec |-> "input", id |-> inp.id, files |-> [i \in 1..Len(Files) |-> [name |-> Files[i].name, text |-> Text(Files[i], i), abs |-> Files[i]]],
+            /\ PrintT(ToJson([rec |-> "input", id |-> inp.id, files |-> [i \in 1..Len(Files) |-> [name |-> Files[i].name, text |-> Text(Files[i], i), abs |-> Files[i], lines |-> LineTable(Files[i])]],
                               ideal |-> [ok |-> ConflictFree(Files), conflicts |-> Conflicts(Files), model |-> MergedModel(Files), typeseq |-> SeqOfTypes(Files, 1)]]))
 Next == \/ Load \/ Announce \/ DoFile \/ DoCond \/ EndConds \/ PickExtFile \/ ExtType \/ ExtRel \/ EndExtRels \/ EndExtType \/ Finish \/ Panic
 Spec == Init /\ [][Next]_vars
